@@ -190,8 +190,61 @@ func laSchemaChildren(c *Ctx, rule string) {
 							bare = true
 						}
 					}
+					// a key put together from single elements of the path (this one, its parent) identifies a group no
+					// better: what identifies it is the whole prefix — a slice of the path from its start, or a
+					// string carried and extended from element to element
+					if !bare {
+						wholePrefix, elems := false, 0
+						seenV := map[ssa.Value]bool{}
+						var look func(v ssa.Value, d int)
+						look = func(v ssa.Value, d int) {
+							if v == nil || seenV[v] || d > 8 {
+								return
+							}
+							seenV[v] = true
+							switch x := v.(type) {
+							case *ssa.Slice:
+								if pf := fieldOfLoad(x.X); pf != nil && pf.Name() == "Path" && (x.Low == nil || constIs(x.Low, 0)) {
+									wholePrefix = true
+								}
+							case *ssa.Phi:
+								// carried from iteration to iteration: built up along the path
+								for _, e := range x.Edges {
+									if bo, ok := e.(*ssa.BinOp); ok && bo.Op == token.ADD && (bo.X == ssa.Value(x) || bo.Y == ssa.Value(x)) {
+										wholePrefix = true
+									}
+									look(e, d+1)
+								}
+							case *ssa.BinOp:
+								look(x.X, d+1)
+								look(x.Y, d+1)
+							case *ssa.Call:
+								for _, a := range x.Call.Args {
+									look(a, d+1)
+								}
+							case *ssa.UnOp:
+								if ia, ok := x.X.(*ssa.IndexAddr); ok && x.Op == token.MUL {
+									base := ia.X
+									if sl, ok := base.(*ssa.Slice); ok {
+										base = sl.X
+									}
+									if pf := fieldOfLoad(base); pf != nil && pf.Name() == "Path" {
+										elems++
+									}
+								}
+							case *ssa.Extract:
+								if _, ok := x.Tuple.(*ssa.Next); ok {
+									elems++
+								}
+							}
+						}
+						look(lk.Index, 0)
+						if !wholePrefix && elems > 0 {
+							bare = true
+						}
+					}
 					if bare {
-						r.bad(rule, key, u.Pos(lk.Pos()), "the groups already emitted are looked up by the bare name of the path element: a group with the same name as one in another group is taken for that one — its element is missing from the schema list and its columns are counted under the other group")
+						r.bad(rule, key, u.Pos(lk.Pos()), "the groups already emitted are looked up by single elements of the path (the element's bare name, or its name and its parent's), not by the whole path to the group: a group with the same name as one elsewhere in the struct is taken for that one — its element is missing from the schema list and its columns are counted under the other group")
 					} else {
 						r.ok(rule, key, u.Pos(lk.Pos()), "groups are looked up by "+symExpr(lk.Index, 0))
 					}
